@@ -300,6 +300,9 @@ pub enum VOp {
     SetFees { fees: [Uint128; 3] },
     Donate { user: u8, amt: VAmt },
     AdvanceBlock,
+    /// adversarial: the direct `Withdraw {}` message (token-factory LP vaults) with one native coin
+    /// (the vault asset's denom or an unrelated one) attached, sent to this cw20-LP vault
+    WithdrawDirect { user: u8, other_denom: bool, amount: Uint128 },
 }
 
 #[derive(Clone, Debug, Serialize, Deserialize)]
@@ -406,6 +409,7 @@ pub fn vop(w_liq: u32, w_loan: u32, w_misc: u32, depth: u32) -> BoxedStrategy<VO
         w_misc => fee3().prop_map(|fees| VOp::SetFees { fees }),
         w_misc => (0u8..4, vamt()).prop_map(|(user, amt)| VOp::Donate { user, amt }),
         1 => Just(VOp::AdvanceBlock),
+        1 => (0u8..4, any::<bool>(), prop_oneof![Just(1u128), Just(1000), gen::amount(1, 1u128 << 70)]).prop_map(|(user, other_denom, a)| VOp::WithdrawDirect { user, other_denom, amount: Uint128::new(a) }),
     ]
     .boxed()
 }
@@ -914,6 +918,26 @@ pub fn run_history(c: &VCase, rec: &Rec, value_clauses: bool) -> Result<HistoryS
                 vw.w.advance(6_000_000_000, 1);
                 continue;
             }
+            VOp::WithdrawDirect { user, other_denom, amount } => {
+                let usr = vw.user(*user);
+                let denom = if *other_denom { "uother" } else { "uvvv" };
+                let b = vw.w.bal(&vw.info, &usr);
+                let lp_b = vw.w.cw20_balance(&vw.lp, &usr);
+                let v = vw.vault.clone();
+                let r = vw.w.exec(&usr, &v, &vault::ExecuteMsg::Withdraw {}, &[cosmwasm_std::coin(amount.u128(), denom)]);
+                if r.is_ok() {
+                    ok = true;
+                    rec.class("withdraw_direct_accepted");
+                    let a = vw.w.bal(&vw.info, &usr);
+                    let lp_a = vw.w.cw20_balance(&vw.lp, &usr);
+                    ensure!(
+                        lp_a < lp_b || a <= b,
+                        "step {step}: the direct Withdraw message with {amount}{denom} attached paid the sender out of the vault ({b} -> {a}) although its share balance did not fall ({lp_b} -> {lp_a})"
+                    );
+                } else {
+                    rec.class("withdraw_direct_rejected");
+                }
+            }
         }
         let after = vw
             .view()
@@ -1027,6 +1051,12 @@ pub fn apply_ops_unjudged(vw: &mut VaultWorld, ops: &[VOp]) {
                 let _ = vw.w.transfer(&usr, &v, &info, amount);
             }
             VOp::AdvanceBlock => vw.w.advance(6_000_000_000, 1),
+            VOp::WithdrawDirect { user, other_denom, amount } => {
+                let usr = vw.user(*user);
+                let v = vw.vault.clone();
+                let denom = if *other_denom { "uother" } else { "uvvv" };
+                let _ = vw.w.exec(&usr, &v, &vault::ExecuteMsg::Withdraw {}, &[cosmwasm_std::coin(amount.u128(), denom)]);
+            }
         }
     }
 }
